@@ -114,6 +114,18 @@ def entry_by_jump_programs(rng):
         L += ["service:", f"    lw a7, {off}(sp)", "    add t4, t3, zero", "    ecall", "    beqz s1, back",
               "    addi sp, sp, 16", "    li a7, 10", "    ecall", "back:", "    ret"]
         out.append("\n".join(L) + "\n")
+    # gp / tp belong to neither convention class: what the jumping code knows about them must not be
+    # claimed inside the function either (F-46); and a loop that runs through a function's entry
+    # with such a claim on one side only must still converge
+    for reg in ("gp", "tp"):
+        # the activation entered by the jump ends the program (its `ret` would go back to the old ra)
+        v1, v2 = rng.choice([1, 34, 11]), rng.choice([10, 93])
+        for how in ("j f", "beqz zero, f", ""):
+            L = ["main:", f"    li {reg}, {v1}", "    jal f", f"    li {reg}, {v2}"] + ([f"    {how}"] if how else []) + \
+                ["f:", f"    mv a7, {reg}", "    mv t0, a7", "    ecall", "    ret"]
+            out.append("\n".join(L) + "\n")
+        out.append(f"main:\n    jal f\n    li {reg}, 1\nH:\n    addi t1, zero, 0\n    j C\nf:\n    addi t2, zero, 0\n"
+                   f"    j H\nC:\n    addi t3, zero, 0\n    j f\n")
     return out
 
 
